@@ -16,6 +16,7 @@ import (
 type Outcome struct {
 	st  *State
 	ret []Val
+	fr  *Frame // the returning frame (top-level unit only: by-name binding of ensures parameters)
 }
 
 type Engine struct {
@@ -50,6 +51,8 @@ type Engine struct {
 	entrySt   *State
 	reqWitness string
 	used      map[string]bool
+	observer  map[string]bool // callees kept abstract as pure functions of their arguments
+	pendingParent *Frame
 }
 
 type toolError struct{ msg string }
@@ -131,6 +134,7 @@ type loopEffects struct {
 	bytes    bool
 	buf      bool
 	all      bool // a call whose effect is not analysed: every family
+	dyn      bool // a call through a function value
 }
 
 func (e *Engine) loopWrites(fn *ssa.Function, h *ssa.BasicBlock) (names map[string]bool, heapWrite bool, bufWrite bool) {
@@ -143,6 +147,55 @@ func (e *Engine) loopEffectsOf(fn *ssa.Function, h *ssa.BasicBlock) *loopEffects
 	seen := map[*ssa.Function]bool{}
 	for b := range e.loopBody[h] {
 		e.blockEffects(b, fx, seen, 0, true)
+	}
+	if fx.dyn {
+		// the body calls through a function value: it may be any closure made by this function, and a closure
+		// writes the locals it captured
+		for _, b := range fn.Blocks {
+			for _, ins := range b.Instrs {
+				mc, ok := ins.(*ssa.MakeClosure)
+				if !ok {
+					continue
+				}
+				cf := mc.Fn.(*ssa.Function)
+				fvName := map[*ssa.FreeVar]string{}
+				for i, fv := range cf.FreeVars {
+					if a, ok := mc.Bindings[i].(*ssa.Alloc); ok && a.Comment != "" {
+						fvName[fv] = a.Comment
+					}
+				}
+				for _, cb := range cf.Blocks {
+					for _, ci := range cb.Instrs {
+						if st, ok := ci.(*ssa.Store); ok {
+							if fv, ok := st.Addr.(*ssa.FreeVar); ok {
+								if n, ok := fvName[fv]; ok {
+									fx.names[n] = true
+								}
+								continue
+							}
+							root := st.Addr
+							for {
+								switch x := root.(type) {
+								case *ssa.FieldAddr:
+									root = x.X
+									continue
+								case *ssa.IndexAddr:
+									root = x.X
+									continue
+								}
+								break
+							}
+							if fv, ok := root.(*ssa.FreeVar); ok {
+								if n, ok := fvName[fv]; ok {
+									fx.names[n] = true
+								}
+							}
+						}
+					}
+					e.blockEffects(cb, fx, seen, 1, false)
+				}
+			}
+		}
 	}
 	return fx
 }
@@ -176,6 +229,7 @@ func (e *Engine) blockEffects(b *ssa.BasicBlock, fx *loopEffects, seen map[*ssa.
 			if f == nil {
 				if !cc.IsInvoke() {
 					fx.all = true // call through a function value
+					fx.dyn = true
 				}
 				continue // interface observers are pure by contract
 			}
@@ -271,7 +325,7 @@ func (e *Engine) execFunc(st *State, fn *ssa.Function, args []Val, bind []Val, d
 		fail("call depth exceeded at %s", fn)
 	}
 	if st.spec && e.opaque[fn.Name()] && !(e.unfoldFn == fn && e.unfoldBudget > 0) {
-		return []Outcome{{st, []Val{e.absApp(st, fn, args)}}}
+		return []Outcome{{st: st, ret: []Val{e.absApp(st, fn, args)}}}
 	}
 	if e.isRecursive(fn) {
 		if !st.spec {
@@ -280,7 +334,7 @@ func (e *Engine) execFunc(st *State, fn *ssa.Function, args []Val, bind []Val, d
 		if e.unfoldFn == fn && e.unfoldBudget > 0 {
 			e.unfoldBudget--
 		} else {
-			return []Outcome{{st, []Val{e.absApp(st, fn, args)}}}
+			return []Outcome{{st: st, ret: []Val{e.absApp(st, fn, args)}}}
 		}
 	}
 	e.stack = append(e.stack, fn)
@@ -290,7 +344,7 @@ func (e *Engine) execFunc(st *State, fn *ssa.Function, args []Val, bind []Val, d
 		// pure scalar spec function: evaluate path-wise on a clone and merge the results into one ite-term
 		key := fn.String() + "|" + renderVals(args) + "|" + st.bytesHeap().String() + fmt.Sprint(st.assume)
 		if m, ok := e.memo[key]; ok {
-			return []Outcome{{st, m}}
+			return []Outcome{{st: st, ret: m}}
 		}
 		s2 := st.clone()
 		s2.goal = false
@@ -317,7 +371,7 @@ func (e *Engine) execFunc(st *State, fn *ssa.Function, args []Val, bind []Val, d
 			merged[k] = acc
 		}
 		e.memo[key] = merged
-		return []Outcome{{st, e.simplifyVals(st, merged)}}
+		return []Outcome{{st: st, ret: e.simplifyVals(st, merged)}}
 	}
 	return e.execBody(st, fn, args, bind, depth)
 }
@@ -337,7 +391,8 @@ func scalarResults(fn *ssa.Function) bool {
 
 func (e *Engine) execBody(st *State, fn *ssa.Function, args []Val, bind []Val, depth int) []Outcome {
 	fr := &Frame{fn: fn, regs: map[ssa.Value]Val{}, named: map[string]int{}, entry: map[string]Val{},
-		iter: map[*ssa.BasicBlock]int{}, inLoop: map[*ssa.BasicBlock]bool{}, depth: depth, loopPre: map[string]Val{}}
+		iter: map[*ssa.BasicBlock]int{}, inLoop: map[*ssa.BasicBlock]bool{}, depth: depth, loopPre: map[string]Val{}, parent: e.pendingParent}
+	e.pendingParent = nil
 	for i, p := range fn.Params {
 		fr.regs[p] = args[i]
 		fr.entry[p.Name()] = args[i]
@@ -540,7 +595,7 @@ func (e *Engine) run(st *State, fr *Frame, b *ssa.BasicBlock, idx int) []Outcome
 				}
 				ks := sortOf(&Term{W: kw})
 				dom := &Term{Leaf: "((as const (Array " + ks + " Bool)) false)", W: -1, Sort: "(Array " + ks + " Bool)"}
-				fr.regs[i] = MapV{st.newObj(&MapObj{Dom: dom, Vals: map[string]*Term{}, KeyW: kw, ValT: mt.Elem()})}
+				fr.regs[i] = MapV{st.newObj(&MapObj{Dom: dom, Vals: map[string]*Term{}, KeyW: kw, ValT: mt.Elem(), Own: true})}
 			case *ssa.Lookup:
 				fr.regs[i] = e.mapLookup(st, fr, i)
 			case *ssa.MapUpdate:
@@ -620,7 +675,7 @@ func (e *Engine) run(st *State, fr *Frame, b *ssa.BasicBlock, idx int) []Outcome
 				if e.paths > e.maxPaths {
 					fail("path cap exceeded in %s", fr.fn)
 				}
-				return []Outcome{{st, ret}}
+				return []Outcome{{st: st, ret: ret, fr: fr}}
 			case *ssa.Panic:
 				e.oblige(st, "safe:panic", tFalse, fmt.Sprintf("panic reachable in %s", fr.fn.Name()))
 				return nil
@@ -855,7 +910,28 @@ func (e *Engine) binop(st *State, op token.Token, xv, yv Val, xt types.Type, ins
 			return Not(c)
 		}
 		return c
+	case IfaceV:
+		// comparison of a path-known interface value with nil
+		isNil := false
+		switch b := yv.(type) {
+		case NilV:
+			isNil = true
+		case IfaceV:
+			isNil = b.Tag == nil
+		}
+		if isNil {
+			if op == token.NEQ {
+				return Bool(a.Tag != nil)
+			}
+			return Bool(a.Tag == nil)
+		}
 	case NilV:
+		if b, ok := yv.(IfaceV); ok {
+			if op == token.NEQ {
+				return Bool(b.Tag != nil)
+			}
+			return Bool(b.Tag == nil)
+		}
 		if b, ok := yv.(PtrHeap); ok {
 			c := Eq(b.Ref, BVu(0, 64))
 			if op == token.NEQ {
@@ -1273,7 +1349,12 @@ func (e *Engine) loadGlobal(st *State, g *ssa.Global) Val {
 		return v
 	}
 	if et := g.Type().Underlying().(*types.Pointer).Elem(); isIfaceNotErr(et) {
-		return IfaceSym{ID: Sym("global!"+g.Name(), 64), T: et}
+		// package-level interface variables (the logger) are initialised at package init and only ever replaced by
+		// non-nil values: assumed non-nil, listed among the assumptions
+		id := Sym("global!"+g.Name(), 64)
+		st.assumeT(Not(Eq(id, BVu(0, 64))))
+		e.warn("assumed: package-level interface variable %s is non-nil", g.Name())
+		return IfaceSym{ID: id, T: et}
 	}
 	switch n {
 	case "encoding/binary.LittleEndian", "encoding/binary.BigEndian":
@@ -1679,7 +1760,11 @@ func (e *Engine) mapLookup(st *State, fr *Frame, i *ssa.Lookup) Val {
 			m2.Vals = map[string]*Term{"p": arr}
 			st.objs[mv.ID] = &m2
 		}
-		v = PtrHeap{Ref: Ite(present, Select(arr, k, 64), BVu(0, 64)), Root: u.Elem()}
+		ref := Select(arr, k, 64)
+		if m.Own && !st.spec {
+			st.assumeT(Implies(present, ULt(alloc0, ref)))
+		}
+		v = PtrHeap{Ref: Ite(present, ref, BVu(0, 64)), Root: u.Elem()}
 	default:
 		fail("map value type %s", typeName(m.ValT))
 	}
@@ -1710,7 +1795,8 @@ func (e *Engine) mapUpdate(st *State, fr *Frame, i *ssa.MapUpdate) {
 	nd.Sort = "(Array " + ks + " Bool)"
 	na := Store(arr, k, p.Ref)
 	na.Sort = "(Array " + ks + " Ref)"
-	st.objs[mv.ID] = &MapObj{Dom: nd, Vals: map[string]*Term{"p": na}, KeyW: m.KeyW, ValT: m.ValT}
+	own := m.Own && e.valid(st, ULt(alloc0, p.Ref))
+	st.objs[mv.ID] = &MapObj{Dom: nd, Vals: map[string]*Term{"p": na}, KeyW: m.KeyW, ValT: m.ValT, Own: own}
 }
 
 
